@@ -7,7 +7,9 @@ import (
 	"time"
 
 	abci "github.com/cometbft/cometbft/abci/types"
+	mttypes "mods.irisnet.org/modules/mt/types"
 
+	mttransfer "github.com/bianjieai/tibc-go/modules/tibc/apps/mt_transfer/types"
 	nfttransfer "github.com/bianjieai/tibc-go/modules/tibc/apps/nft_transfer/types"
 	packettypes "github.com/bianjieai/tibc-go/modules/tibc/core/04-packet/types"
 
@@ -63,6 +65,24 @@ func FailingSends(m *PktModel, w *world.World, g Ghost) []UserAction {
 			return c, w.Tx(c, u, nfttransfer.NewMsgNftTransfer(class, id, u.Addr.String(), User(w.C(B), 1).Addr.String(), dst, relay, ""))
 		}})
 	}
+	// multi-token sends that pass every token check but are refused by the packet layer
+	mtbad := func(label, dst, relay string) {
+		out = append(out, UserAction{Label: "badsend:" + label, On: A, Run: func(w *world.World) (*world.Chain, world.TxRes) {
+			c := w.C(A)
+			u := User(c, 1)
+			var class, id string
+			for k, v := range MtHoldings(c).Bal {
+				p := strings.Split(k, "|")
+				if p[2] == u.Addr.String() && v >= 1 {
+					class, id = p[0], p[1]
+				}
+			}
+			return c, w.Tx(c, u, mttransfer.NewMsgMtTransfer(class, id, u.Addr.String(), User(w.C(B), 1).Addr.String(), dst, relay, "", 1))
+		}})
+	}
+	mtbad("mt-unknown-destination", "zchainzzz", "")
+	mtbad("mt-unknown-relay", B, "zchainzzz")
+	mtbad("mt-destination-is-self", A, "")
 	// cls/tok2 stays with user 1 in this scenario (only tok1 is offered for honest transfers)
 	nft("nft-not-owner", 2, "cls", "tok2", B, "")
 	nft("nft-class-missing", 1, "nocls", "tok2", B, "")
@@ -211,6 +231,15 @@ func modelsC09(tier string) ([]*PktModel, []int) {
 			if r := w.Tx(a, User(a, 1), nftMint("tok2", "cls", User(a, 1))); !r.OK() {
 				panic(r.Log)
 			}
+			u1 := User(a, 1)
+			if r := w.Tx(a, u1, mttypes.NewMsgIssueDenom("gold", "", u1.Addr.String())); !r.OK() {
+				panic(r.Log)
+			}
+			for d := range mtDenoms(a) {
+				if r := w.Tx(a, u1, mttypes.NewMsgMintMT("", d, 5, "data", u1.Addr.String(), u1.Addr.String())); !r.OK() {
+					panic(r.Log)
+				}
+			}
 		},
 		InitGhost: func(w *world.World, g *Ghost) {
 			g.Extra[nftKey(A, "cls|tok1")] = "native:" + A + ":cls|tok1"
@@ -236,7 +265,7 @@ func CheckC09(tier string) int {
 
 	return RunPkt("C09", tier, models, depth, tierBudget(tier, 100*time.Second, 15*time.Minute), append([]string{
 		"sends from two applications (mock port through the packet keeper on a branch written only on success, as a Msg handler would; NFT transfers as real transactions) to two destinations, interleaved with inbound receives and acknowledgements",
-		"failing sends: unknown destination, unknown relay chain, destination = self, sequence ahead / reused, empty data, foreign source, token not owned, class missing, token missing; each must fail and leave the tibc, NFT, MT, nft and mt stores byte-identical",
+		"failing sends: unknown destination, unknown relay chain, destination = self (mock, NFT and MT), sequence ahead / reused, empty data, foreign source, token not owned, class missing, token missing; each must fail and leave the tibc, NFT, MT, nft and mt stores byte-identical",
 	}, commonAssumptions...))
 }
 
